@@ -634,7 +634,19 @@ impl<'a> Evaluator<'a> {
                         if input && ty != "i128" {
                             return Err(format!("cast of an input to {}: not order-only", ty));
                         }
-                        Ok(Val::Int { v, input })
+                        // a constant is converted the way `as` does it (two's complement wrap to the target width)
+                        let wrapped = match ty.as_str() {
+                            "u8" => (v as u8) as i128,
+                            "u16" => (v as u16) as i128,
+                            "u32" => (v as u32) as i128,
+                            "u64" | "usize" => (v as u64) as i128,
+                            "i8" => (v as i8) as i128,
+                            "i16" => (v as i16) as i128,
+                            "i32" => (v as i32) as i128,
+                            "i64" | "isize" => (v as i64) as i128,
+                            _ => v,
+                        };
+                        Ok(Val::Int { v: if input { v } else { wrapped }, input })
                     }
                     o => Ok(o),
                 }
@@ -1142,6 +1154,12 @@ impl<'a> Evaluator<'a> {
                             return Ok(Val::Str(parts.join(&sep)));
                         }
                         "last" => return Ok(items.last().cloned().map(Val::some).unwrap_or(Val::none())),
+                        "count" => return Ok(Val::int(items.len() as i128)),
+                        "max" | "min" if mc.args.is_empty() && items.iter().all(|v| matches!(v, Val::Int { input: false, .. })) => {
+                            let it = items.iter().map(|v| match v { Val::Int { v, .. } => *v, _ => 0 });
+                            let r = if name == "max" { it.max() } else { it.min() };
+                            return Ok(r.map(|v| Val::some(Val::int(v))).unwrap_or(Val::none()));
+                        }
                         "any" | "all" => {
                             let mut acc = name == "all";
                             for it in items {
@@ -1165,8 +1183,8 @@ impl<'a> Evaluator<'a> {
                     // hooks see every method call first (receiver + best-effort arguments)
                     let mut hargs = vec![recv.clone()];
                     for a in mc.args.iter() {
-                        if matches!(a, syn::Expr::Closure(_)) {
-                            hargs.push(Val::Opaque("closure".into()));
+                        if let syn::Expr::Closure(cl) = a {
+                            hargs.push(Val::Closure(Box::new(cl.clone()), Box::new(env.clone())));
                         } else {
                             hargs.push(self.eval(a, env).unwrap_or(Val::Opaque("arg".into())));
                         }
@@ -1231,6 +1249,22 @@ impl<'a> Evaluator<'a> {
                     "unwrap_or_default" if is_none => Ok(Val::List(vec![])),
                     "unwrap" | "expect" if is_some => Ok(inner.unwrap()),
                     "into" | "clone" | "to_owned" | "as_ref" | "as_deref" | "to_string" | "as_str" | "copied" | "cloned" | "borrow" | "as_mut" | "into_iter" | "iter" | "iter_mut" | "to_vec" => Ok(recv),
+                    // index arithmetic (the receiver is treated as unsigned: a negative difference is None / 0)
+                    "checked_sub" | "checked_add" | "saturating_sub" | "saturating_add" | "wrapping_add" if matches!(recv, Val::Int { input: false, .. }) && mc.args.len() == 1 => {
+                        let e = self.eval(&mc.args[0], env)?;
+                        match (&recv, e) {
+                            (Val::Int { v, .. }, Val::Int { v: e, input: false }) => {
+                                let r = if name.ends_with("sub") { v - e } else { v + e };
+                                Ok(match name.as_str() {
+                                    "checked_sub" => if r < 0 { Val::none() } else { Val::some(Val::int(r)) },
+                                    "checked_add" => Val::some(Val::int(r)),
+                                    "saturating_sub" => Val::int(r.max(0)),
+                                    _ => Val::int(r),
+                                })
+                            }
+                            _ => Err(format!("{}: bad arguments", name)),
+                        }
+                    }
                     "pow" if matches!(recv, Val::Int { input: false, .. }) => {
                         let e = self.eval(&mc.args[0], env)?;
                         match (&recv, e) {
